@@ -117,7 +117,7 @@ impl<'h> FindMatchesImpl<'h> {
         let mut matches = Vec::with_capacity(n);
         let mut mode_switch = false;
         let mut new_mode = 0;
-        for _ in 0..n {
+        while matches.len() < n {
             // The indices of the char_indices iterator are relative to the offset.
             let result = self
                 .scanner_impl
@@ -132,9 +132,11 @@ impl<'h> FindMatchesImpl<'h> {
                     new_mode = mode;
                     break;
                 }
-            } else {
+            } else if char_indices.next().is_none() {
+                // No match at the current position and the haystack is exhausted.
                 break;
             }
+            // Otherwise the unmatched character is skipped, like `next_match` does.
         }
         if mode_switch {
             PeekResult::MatchesReachedModeSwitch((matches, new_mode))
